@@ -170,4 +170,8 @@ def isVul (c : Contract) : Option Bool :=
     | some d => some (d.isVul v)
 end Contract
 
+/-- `BiddingPhaseState` -/
+inductive Res | illegal | ongoing | finished
+  deriving DecidableEq, Repr
+
 end Bridge
